@@ -85,7 +85,12 @@ func (e *c04Env) fullContent() string {
 	} else if err == nil && len(rows) == 1 {
 		integ = "err " + rows[0].Error
 	}
-	return e.content() + " bulk=" + bulk + " integrity=" + integ
+	tables := "?"
+	rows, _, _, err = e.s.Query(context.Background(), queryRequestFromString("SELECT group_concat(name) FROM (SELECT name FROM sqlite_master WHERE type='table' ORDER BY name)", false, false, false))
+	if err == nil && len(rows) == 1 && rows[0].Error == "" && len(rows[0].Values) == 1 {
+		tables = rows[0].Values[0].GetParameters()[0].GetS()
+	}
+	return e.content() + " bulk=" + bulk + " tables=" + tables + " integrity=" + integ
 }
 
 func (e *c04Env) state() string {
@@ -114,8 +119,15 @@ func (e *c04Env) mkLoadFile(id int, wal bool) string {
 	if err != nil {
 		e.t.Fatal(err)
 	}
-	for _, q := range []string{"CREATE TABLE t (id INTEGER PRIMARY KEY, v TEXT)", "CREATE TABLE bulk (k INTEGER PRIMARY KEY, pad TEXT)",
-		fmt.Sprintf("INSERT INTO t(id, v) VALUES(%d, 'loaded')", id)} {
+	// every loaded database is laid out differently (its own marker table first, a few pages of
+	// filler), so that WAL pages cut from one database do not happen to fit another
+	qs := []string{fmt.Sprintf("CREATE TABLE m%d (x TEXT)", id)}
+	for i := 0; i < id%5+2; i++ {
+		qs = append(qs, fmt.Sprintf("INSERT INTO m%d(x) VALUES('%s')", id, strings.Repeat("m", 1500)))
+	}
+	qs = append(qs, "CREATE TABLE t (id INTEGER PRIMARY KEY, v TEXT)", "CREATE TABLE bulk (k INTEGER PRIMARY KEY, pad TEXT)",
+		fmt.Sprintf("INSERT INTO t(id, v) VALUES(%d, 'loaded')", id))
+	for _, q := range qs {
 		if rs, err := d.ExecuteStringStmt(q); err != nil || rs[0].GetError() != "" {
 			e.t.Fatalf("building load file: %v %v", err, rs)
 		}
